@@ -42,7 +42,7 @@ def main():
             if fn.endswith((".diff", ".go", ".md")):
                 shutil.copyfile(os.path.join(src, fn), os.path.join(dst, fn))
     patch = os.path.join(dst, "patch.diff")
-    demo = [f for f in os.listdir(dst) if f.endswith(".go")][0]
+    demo = os.environ.get("SEED_DEMO") or sorted(f for f in os.listdir(dst) if f.endswith(".go"))[0]
     wt = "/tmp/seedverify_%s" % sid
     sh("git -C /repo worktree remove --force %s" % wt)
     rc, out = sh("git -C /repo worktree add -q --detach %s HEAD" % wt)
